@@ -33,7 +33,8 @@ CLAIMED = {
          'Component-level proof for the namespace mechanisms: ElemStack prefix maps (innermost binding wins, growth preserves '
          'entries), updateNSMap reserved-prefix constraints (DG/IG/SG), duplicate expanded attribute names, the SAX2 '
          'prefix-mapping pass, DOM Level 3 lookupNamespaceURI / lookupPrefix / isDefaultNamespace over a harness tree, the DOM '
-         'serializer scope search, QName splitting.',
+         'serializer scope search, QName splitting, the WF scanner\'s two-pass start tag (declarations written after their use), '
+         'the IG/SG namespace pre-pass and the declarations supplied by DTD defaults.',
          'DESIGN.md 3-C06',
          'XMLStringPool ids assumed injective; the multi-row look-up and DOM tree units are bounded (depth <= 3); '
          'scanStartTagNS/buildAttList as wholes and the SAX2/DOM adapters outside the extracted fragments are not covered.',
@@ -41,16 +42,19 @@ CLAIMED = {
  'C07': ('proof',
          'Component-level proof for the validity kernels only: SimpleContentModel, MixedContentModel and the DFA table walk '
          'accept exactly the language of the model (all child sequences up to a stated length), CMStateSet set operations, and the '
-         'attribute-value checks of DTDValidator::validateAttrValue (fragment). buildDFA, DTDScanner and the validation '
-         'driver are not covered.',
+         'attribute-value checks of DTDValidator::validateAttrValue (fragment), the syntax-tree node classes buildDFA starts from '
+         '(nullable / firstpos / lastpos of CMUnaryOp, CMBinaryOp, CMLeaf, CMAny) and the per-element state of ElemStack::addLevel. '
+         'buildDFA itself, DTDScanner and the validation driver are not covered.',
          'DESIGN.md 3-C07',
          'Names are ids (equal iff same id); DFA transition tables are arbitrary tables satisfying the stated invariant, not '
          'the output of buildDFA; known findings listed in known_findings.txt.',
          'CBMC complete unwinding over bounded symbolic inputs on extracted real bodies'),
  'C08': ('proof',
          'Component-level proof for the particle-matching kernels shared with C07 plus AllContentModel and the counting-state '
-         '(minOccurs/maxOccurs) DFA walk against a counting-automaton reference; TraverseSchema, SchemaValidator, '
-         'ComplexTypeInfo and buildDFA are not covered.',
+         '(minOccurs/maxOccurs) DFA walk against a counting-automaton reference; ComplexTypeInfo::expandContentModel (occurrence '
+         'range -> tree admitting exactly min..max repetitions), the xsi:type derivation/block check of SchemaValidator::validateElement, '
+         'the substitution-group derivation/block check, the attribute wildcard of derived complex types (fragment of '
+         'TraverseSchema::processAttributes). TraverseSchema and SchemaValidator as wholes and buildDFA are not covered.',
          'DESIGN.md 3-C08',
          'Same modelling as C07; one known finding (counting state + wildcard) listed in known_findings.txt.',
          'CBMC complete unwinding over bounded symbolic inputs on extracted real bodies'),
@@ -58,8 +62,9 @@ CLAIMED = {
          'Component-level proof for the value-level kernels: Gregorian helpers, parseInt (no wrap-around), normalize, '
          'compareOrder/compareResult and the duration reference table of XMLDateTime; XMLBigInteger / XMLBigDecimal parsing '
          'and comparison (value-space equality of all lexical zeros, antisymmetry, transitivity); Base64 / HexBin lexical spaces '
-         'incl. padding bits; textToBin/parseInt range; schema whitespace facets. Datatype validator classes, facets, '
-         'lists/unions, float/double and XSValue are not covered.',
+         'incl. padding bits; textToBin/parseInt range; schema whitespace facets; the float/double order incl. INF/NaN '
+         '(XMLAbstractDoubleFloat::compareValues); inheritFacet of the numeric and string validators; anyURI escaping. The other '
+         'datatype validator code, lists/unions, float/double lexical parsing and XSValue are not covered.',
          'DESIGN.md 3-C09',
          'String lengths bounded per unit; year range bounded in quick tier; allocation modelled as fresh exact-size objects; '
          'one known finding (negative durations) in known_findings.txt.',
@@ -67,8 +72,9 @@ CLAIMED = {
  'C11': ('other',
          'BOUNDED stand-ins only, never counted as proved: RangeToken range algebra (addRange, sort/compact, merge, subtract, '
          'intersect, complement, match/doCreateMap) against set semantics over a ghost code point with <= 2-3 ranges per operand '
-         'over a small code-point universe, and BMPattern::matches for short patterns. The parser, Op compilation and the '
-         'backtracking matcher are not covered; the property as a whole is not decided.',
+         'over a small code-point universe, and BMPattern::matches for short patterns; plus two complete units on single functions '
+         '(doTokenOverlap: soundness of the non-backtracking closure optimisation; processBackReference). The rest of the parser, Op '
+         'compilation and the backtracking matcher are not covered; the property as a whole is not decided.',
          'DESIGN.md 3-C11',
          'Bounds stated per unit in the evidence (bounded_units); arena allocation model.',
          'CBMC bounded unwinding with unwinding assertions on extracted real bodies (bounded stand-in)'),
@@ -85,7 +91,8 @@ CLAIMED = {
          'Component-level proof of refill transparency: refreshRawBuffer / xcodeMoreChars / refreshCharBuffer preserve every unread '
          'byte and character in order for every stream read size and refill position (ghost-index contracts), every reader look-ahead '
          'operation is proved against a postcondition over the logical unread sequence with the refill replaced by that contract, and '
-         'the intrinsic transcoders consume whole characters only.',
+         'the intrinsic transcoders consume whole characters only; refreshRawBuffer fills the raw buffer until it is full or the stream '
+         'is at its end, so what is sensed and decoded does not depend on the stream\'s read sizes.',
          'DESIGN.md 3-C04',
          'Buffer constants rebound to small values (code assumed parametric in them); ICU transcoders and non-memory streams assumed to '
          'satisfy the interface contracts; scanner-level look-ahead spanning several reader calls is not covered.',
@@ -98,18 +105,22 @@ CLAIMED = {
          'Transcoder and target are interface contracts; DOM serializer and re-parse equality not covered.',
          'CBMC function and loop contracts + complete domain enumeration on extracted real bodies'),
  'C16': ('proof',
-         'Component-level proof for the XSerializeEngine primitives only: every operator<< / operator>> pair, raw byte blocks, '
-         'fillBuffer/flushBuffer keep store and load cursors symmetric and in bounds; the ~60 class-level serialize() methods are '
-         'not covered (a dropped field there is invisible to this check).',
+         'Component-level proof: the XSerializeEngine primitives (every operator<< / operator>> pair, raw byte blocks, '
+         'fillBuffer/flushBuffer keep store and load cursors symmetric and in bounds); ~50 class-level serialize() methods and the 28 '
+         'container store/load pairs of XTemplateSerializer over a tape engine (store then load restores every serialised member / '
+         'every entry under the same keys; kinds and order match); storeDV/loadDV-style helper pairs; the level stamp, lock status '
+         'and empty-pool guard of XMLGrammarPoolImpl::serializeGrammars / deserializeGrammars.',
          'DESIGN.md 3-C16',
-         'Streams are ghost-tape stubs; raw block unit is a bounded stand-in (reported separately); class serialize() methods, '
-         'XTemplateSerializer and object pools not covered.',
+         'Streams are ghost-tape stubs; raw block unit is a bounded stand-in (reported separately); sub-objects are opaque ids: the '
+         'object-graph side (pointer pools, prototypes, what a class computes from what it loaded) and behavioural identity of the '
+         'restored pool are not covered; one known finding (annotation of xs:notation) in known_findings.txt.',
          'CBMC code contracts (loop-free full-domain harnesses) on extracted real bodies'),
  'C05': ('proof',
          'Component-level proof: the intrinsic transcoders and the encoding probe satisfy specifications written from '
          'the Unicode Standard / XML Appendix F for every input in the stated domain; not a whole-document claim.',
          'DESIGN.md 3-C05',
-         'Assumes extraction rules preserve semantics; ICU transcoders and TransService alias tables not covered; '
+         'Assumes extraction rules preserve semantics; ICU transcoders not covered (the registration of encoding names, their '
+         'case-insensitive look-up and setEncoding\'s family check are); '
          'buffer lengths bounded per unit (stated in evidence).',
          'CBMC code contracts + complete unwinding over the full byte-sequence domain on extracted real bodies'),
 }
